@@ -349,7 +349,7 @@ func (c *CSVToFITConv) createField(mesgNum typedef.MesgNum, num byte, strValue, 
 
 func (c *CSVToFITConv) createDeveloperField(name, strValue, units string) (devField proto.DeveloperField, err error) {
 	var fieldDesc *mesgdef.FieldDescription
-	for i := range c.fieldDescriptions {
+	for i := len(c.fieldDescriptions) - 1; i >= 0; i-- { // the most recent description wins
 		if strings.Join(c.fieldDescriptions[i].FieldName, "|") == name {
 			fieldDesc = c.fieldDescriptions[i]
 			break
